@@ -99,7 +99,7 @@ class Holder:
 
 
 class Prog:
-    def __init__(self, sig: Sig, is_async: bool, ask_zz: bool) -> None:
+    def __init__(self, sig: Sig, is_async: bool, ask_zz: bool, po: bool = True) -> None:
         self.sig = sig
         self.h = Holder()
         prog = self
@@ -125,8 +125,10 @@ class Prog:
 
         pre = mkfn(asked + (("zz",) if ask_zz else ()), rec("pre", True), name="pre")
         cap = mkfn(asked, rec("cap", "captured"), name="cap")
-        post = mkfn(asked + ("result", "OLD"), rec("post", lambda: prog.h.post_truth), name="post")
-        err = mkfn(asked + ("result", "OLD"), rec("err", lambda: Tag("post")), name="err")
+        # po: the postcondition itself asks for OLD; otherwise only its error factory does, which then also has a parameter
+        # with a default value that is not a parameter of f
+        post = mkfn(asked + ("result",) + (("OLD",) if po else ()), rec("post", lambda: prog.h.post_truth), name="post")
+        err = mkfn(asked + ("result", "OLD") + (() if po else ("extra_e=2021",)), rec("err", lambda: Tag("post")), name="err")
         f = icontract.ensure(post, error=err)(self.bare)
         f = icontract.snapshot(cap, name="snap")(f)
         f = icontract.require(pre, error=lambda: Tag("pre"))(f)
@@ -134,20 +136,21 @@ class Prog:
         self.pysig = inspect.signature(self.bare)
 
 
-_CACHE = {}  # type: Dict[Tuple[int, bool, bool], Prog]
+_CACHE = {}  # type: Dict[Tuple[int, bool, bool, bool], Prog]
 
 
 def run_bind(members: Tuple[int, ...], is_async: bool, si: int, npos: int, kc: bool, kd: bool, ke: bool, kf: bool,
-             ka: bool, kz: bool, ask_zz: bool, fail_post: bool, v0: int, v1: int) -> Tuple[bool, bool]:
+             ka: bool, kz: bool, ask_zz: bool, fail_post: bool, v0: int, v1: int, po: bool = True) -> Tuple[bool, bool]:
     si = conc(si, 0, len(members) - 1)
     npos = conc(npos, 0, 6)
     kc, kd, ke, kf, ka, kz, ask_zz, fail_post = (concb(kc), concb(kd), concb(ke), concb(kf), concb(ka), concb(kz),
                                                  concb(ask_zz), concb(fail_post))
-    key = (members[si], is_async, ask_zz)
+    po = concb(po)
+    key = (members[si], is_async, ask_zz, po)
     with untraced():
         prog = _CACHE.get(key)
         if prog is None:
-            prog = Prog(SIGS[members[si]], is_async, ask_zz)
+            prog = Prog(SIGS[members[si]], is_async, ask_zz, po)
             _CACHE[key] = prog
         prog.h = Holder()
     sig = prog.sig
@@ -223,13 +226,17 @@ def run_bind(members: Tuple[int, ...], is_async: bool, si: int, npos: int, kc: b
                 kw["_KWARGS"][k] is not kwargs[k] for k in kwargs):
             ok = False
         if tag in ("post", "err"):
-            if kw.get("result") != "res" or getattr(kw.get("OLD"), "snap", None) != "captured":
+            if kw.get("result") != "res":
+                ok = False
+            if (po or tag == "err") and getattr(kw.get("OLD"), "snap", None) != "captured":
+                ok = False
+            if tag == "err" and not po and kw.get("extra_e") != 2021:
                 ok = False
     note((repr(sig), npos, tuple(sorted(kwargs)), fail_post), True)
     return ok, True
 
 
-ALL = ["si", "npos", "kc", "kd", "ke", "kf", "ka", "kz", "ask_zz", "fail_post", "v0", "v1"]
+ALL = ["si", "npos", "kc", "kd", "ke", "kf", "ka", "kz", "ask_zz", "fail_post", "v0", "v1", "po"]
 
 
 def _quick_subset(idx: List[int]) -> List[int]:
@@ -259,10 +266,10 @@ def harnesses(tier: str) -> List[H]:
             n = len(members)
             if tier == "quick":
                 params = [I("si", 0, n - 1), I("npos", 0, 4), B("kc"), B("ke"), B("ka")]
-                defaults = {"kd": False, "kf": False, "kz": False, "ask_zz": False, "fail_post": False}
+                defaults = {"kd": False, "kf": False, "kz": False, "ask_zz": False, "fail_post": False, "po": True}
             else:
                 params = [I("si", 0, n - 1), I("npos", 0, 6), B("kc"), B("kd"), B("ke"), B("kf"), B("ka"), B("kz")]
-                defaults = {"ask_zz": False, "fail_post": False}
+                defaults = {"ask_zz": False, "fail_post": False, "po": True}
             params += [I("v0", -5, 5), I("v1", -5, 5)]
             name = "bind_po{}_pk{}{}".format(group[0], group[1], suffix)
             out.append(H(name, bind(run_bind, (members, False), ALL, defaults, [p.name for p in params]), params,
@@ -280,16 +287,18 @@ def harnesses(tier: str) -> List[H]:
     slice_members = tuple(_quick_subset(GROUPS[(1, 1)]) if tier == "quick" else GROUPS[(1, 1)])
     n = len(slice_members)
     for (name, is_async, fixed, extra) in (
-            ("bind_fail_post", False, {"fail_post": True, "ask_zz": False}, []),
-            ("bind_missing_name", False, {"fail_post": False, "ask_zz": True}, []),
-            ("bind_async", True, {"ask_zz": False}, [B("fail_post")])):
+            ("bind_fail_post", False, {"fail_post": True, "ask_zz": False}, [B("po")]),
+            ("bind_missing_name", False, {"fail_post": False, "ask_zz": True, "po": True}, []),
+            ("bind_async", True, {"ask_zz": False}, [B("fail_post"), B("po")])):
         params = [I("si", 0, n - 1), I("npos", 0, 4), B("kc"), B("ke"), B("ka"), B("kz")] + extra + [I("v0", -5, 5), I("v1", -5, 5)]
         defaults = {"kd": False, "kf": False}
         defaults.update(fixed)
         out.append(H(name, bind(run_bind, (slice_members, is_async), ALL, defaults, [p.name for p in params]), params,
                      tiers=(tier,), timeout=900 if tier == "quick" else 3600,
                      family="{} signatures with one positional-only and one positional-or-keyword parameter; {}".format(
-                         n, {"bind_fail_post": "the postcondition is violated so that the error factory is called",
+                         n, {"bind_fail_post": "the postcondition is violated so that the error factory is called; OLD is asked for by "
+                                               "the postcondition and its error factory, or by the error factory only (which then "
+                                               "also has a defaulted parameter unknown to f)",
                              "bind_missing_name": "the precondition additionally asks for the name 'zz'",
                              "bind_async": "async def rendering"}[name]),
                      family_size=n, grid=300))
